@@ -89,6 +89,11 @@ type returnedResult struct {
 }
 
 func newRecorder(budget int) *recorder {
+	if budget >= 1000000 {
+		// the C17 workloads: long inputs on unambiguous grammars
+		return &recorder{maxTermFail: -1, active: map[[2]int]int{}, bodyRuns: map[[2]int]int{}, budget: budget,
+			deadline: time.Now().Add(120 * time.Second), maxList: 1000000}
+	}
 	return &recorder{maxTermFail: -1, active: map[[2]int]int{}, bodyRuns: map[[2]int]int{}, budget: budget,
 		deadline: time.Now().Add(3 * time.Second), maxList: 200}
 }
@@ -192,7 +197,7 @@ func (b *builder) seqOpts(seq *combinator.Sequence, o *Sexp) parsley.Parser {
 }
 
 func (b *builder) probeTerm(p parsley.Parser) parsley.Parser {
-	if !b.probes {
+	if !b.probes || b.rec == nil {
 		return p
 	}
 	rec := b.rec
@@ -428,6 +433,9 @@ func buildGrammar(envS []*Sexp, rootS *Sexp, rec *recorder, probes bool, custom 
 	for i, e := range envS {
 		p := b.build(e)
 		*b.env[i] = func(ctx *parsley.Context, lrc data.IntMap, pos parsley.Pos) (parsley.Node, data.IntSet, parsley.Error) {
+			if rec == nil {
+				return p.Parse(ctx, lrc, pos)
+			}
 			rec.check(ctx, nil)
 			res, cp, err := p.Parse(ctx, lrc, pos)
 			rec.check(ctx, res)
